@@ -212,6 +212,7 @@ class Ctx:
         self.drift = {}
         self.parts = {}             # named sub-results recorded in coverage
         self._sigs_seen = set()
+        self.sig_hist = {}
 
     # -- accounting
     def add_tlc(self, res, name=None):
@@ -245,6 +246,8 @@ class Ctx:
                 self.known_example.setdefault(f["id"], sig)
                 return "known"
         key = re.sub(r"\d+", "N", sig)[:160]
+        hk = re.sub(r"(feat|src|text|devitems)=.*", "", key)[:110]
+        self.sig_hist[hk] = self.sig_hist.get(hk, 0) + 1
         if key in self._sigs_seen and len(self.violations) >= 1:
             self.parts["suppressed_duplicate_violations"] = \
                 self.parts.get("suppressed_duplicate_violations", 0) + 1
@@ -275,6 +278,10 @@ class Ctx:
             print("KNOWN-FINDING: property=%s %s %s (%d cases)" % (self.prop, fid, f["what"], n))
         for k, n in sorted(self.drift.items()):
             print("DRIFT: %s (%d cases)" % (k, n))
+        if self.sig_hist:
+            print("violation classes (signature prefix : count):")
+            for k, n in sorted(self.sig_hist.items(), key=lambda kv: -kv[1])[:20]:
+                print("   %6d  %s" % (n, k))
         cov = dict(self.cov)
         cov.update(self.parts)
         if self.known_hits:
